@@ -7,6 +7,9 @@ import (
 )
 
 func TestWorker(t *testing.T) {
+	// outside the bubble: lets a process in which a run ended in a hang (goroutines that can never be
+	// joined, see wait.go) leave once its result file is written
+	go exitWhenOutputWritten()
 	sim.WorkerMain(t, map[string]sim.Harness{
 		"C11": C11,
 	}, map[string]sim.Options{
